@@ -1,0 +1,76 @@
+//! Verification-only entry points (cargo feature `verif-hooks`).
+//!
+//! They drive the very same encoder and decoder state machines as
+//! [`crate::Encoder`] and [`crate::Decoder`], but with caller-chosen
+//! chunk size limits (the production limits are 252 and 64008), the
+//! way the crate's own unit tests do with limits 3 and 5.  Small
+//! limits let a test harness enumerate inputs around the chunk
+//! boundaries exhaustively.
+//!
+//! Nothing in this module is compiled unless the feature is enabled.
+use std::num::NonZeroUsize;
+
+use owning_iovec::OwningIovec;
+
+use crate::decoder::DecoderState;
+use crate::encoder::EncoderState;
+use crate::DecodingError;
+use crate::Parameters;
+
+fn parameters(max_initial_size: usize, max_subsequent_size: usize) -> Parameters {
+    assert!((1..crate::RADIX).contains(&max_initial_size));
+    assert!((1..crate::RADIX * crate::RADIX).contains(&max_subsequent_size));
+
+    Parameters {
+        max_initial_size: NonZeroUsize::new(max_initial_size).unwrap(),
+        max_subsequent_size: NonZeroUsize::new(max_subsequent_size).unwrap(),
+    }
+}
+
+/// Encodes the concatenation of `pieces`, one encoder call per piece
+/// (copying when the piece's flag is true, borrowing otherwise), with
+/// the given chunk size limits.
+pub fn encode_with_limits(
+    pieces: &[(&[u8], bool)],
+    max_initial_size: usize,
+    max_subsequent_size: usize,
+) -> Vec<u8> {
+    let params = parameters(max_initial_size, max_subsequent_size);
+    let mut iovec = OwningIovec::new();
+    let mut encoder = EncoderState::new(&mut iovec, params);
+
+    for (piece, copy) in pieces.iter().copied() {
+        encoder = if copy {
+            encoder.encode_copy(&mut iovec, params, piece)
+        } else {
+            encoder.encode_borrow(&mut iovec, params, piece)
+        };
+    }
+
+    encoder.terminate(&mut iovec);
+    iovec.flatten().expect("no backpatch left")
+}
+
+/// Decodes the concatenation of `pieces`, one decoder call per piece
+/// (copying when the piece's flag is true, borrowing otherwise), with
+/// the given chunk size limits.
+pub fn decode_with_limits(
+    pieces: &[(&[u8], bool)],
+    max_initial_size: usize,
+    max_subsequent_size: usize,
+) -> Result<Vec<u8>, DecodingError> {
+    let params = parameters(max_initial_size, max_subsequent_size);
+    let mut iovec = OwningIovec::new();
+    let mut decoder = DecoderState::new();
+
+    for (piece, copy) in pieces.iter().copied() {
+        decoder = if copy {
+            decoder.decode_copy(&mut iovec, params, piece)?
+        } else {
+            decoder.decode_borrow(&mut iovec, params, piece)?
+        };
+    }
+
+    decoder.terminate()?;
+    Ok(iovec.flatten().expect("no backpatch left"))
+}
